@@ -293,9 +293,28 @@ var c26Families = []c26Family{
 	{
 		// name+=([k]=v ...) on an associative array is ignored (a TODO in
 		// Runner.assignVal). Repair: one element assignment per pair, which
-		// means the same in bash for indexed and associative arrays alike.
+		// means the same in bash.
 		name: "assoc-array-compound-append-ignored",
 		repair: func(f *syntax.File) bool {
+			// only names declared -A: the rewrite must not touch (and so cannot
+			// explain away) a compound append to an indexed array
+			assoc := map[string]bool{}
+			syntax.Walk(f, func(n syntax.Node) bool {
+				if d, ok := n.(*syntax.DeclClause); ok {
+					isA := false
+					for _, a := range d.Args {
+						if a.Name == nil && a.Value != nil && strings.HasPrefix(a.Value.Lit(), "-") && strings.Contains(a.Value.Lit(), "A") {
+							isA = true
+						}
+					}
+					for _, a := range d.Args {
+						if isA && a.Name != nil {
+							assoc[a.Name.Value] = true
+						}
+					}
+				}
+				return true
+			})
 			changed := false
 			syntax.Walk(f, func(n syntax.Node) bool {
 				ce, ok := n.(*syntax.CallExpr)
@@ -304,7 +323,7 @@ var c26Families = []c26Family{
 				}
 				var out []*syntax.Assign
 				for _, as := range ce.Assigns {
-					split := as.Append && as.Array != nil && as.Index == nil && len(as.Array.Elems) > 0
+					split := as.Append && as.Array != nil && as.Index == nil && len(as.Array.Elems) > 0 && assoc[as.Name.Value]
 					if split {
 						for _, el := range as.Array.Elems {
 							if el.Index == nil || el.Value == nil {
